@@ -17,6 +17,7 @@ func init() {
 }
 
 type c09Msg struct {
+	Priv      bool // the message carries a private dictionary (not dict.Default)
 	App, Code uint32
 	Req       bool
 	Short     string // dictionary short name
@@ -30,6 +31,30 @@ var c09Msgs = []c09Msg{
 	{App: 4, Code: 272, Short: "CC", OtherApp: 0, OtherCode: 258, OtherName: "RA"},
 	{App: 16777238, Code: 258, Short: "RA", OtherApp: 0, OtherCode: 272, OtherName: "CC"},      // Gx defines its own RA
 	{App: 16777251, Code: 258, Short: "RA", OtherApp: 16777238, OtherCode: 316, OtherName: "UL"}, // resolves only through the base dictionary
+	// messages carrying a private dictionary whose base application differs from dict.Default's:
+	{Priv: true, App: 0, Code: 999, Short: "XP", OtherApp: 7, OtherCode: 280, OtherName: "WD"},  // a command the default dictionary lacks
+	{Priv: true, App: 7, Code: 999, Short: "XP", OtherApp: 0, OtherCode: 280, OtherName: "WD"},  // ... reached through the fallback to the private base
+	{Priv: true, App: 7, Code: 280, Short: "WD", OtherApp: 0, OtherCode: 999, OtherName: "DW"}, // a code the private base names differently
+}
+
+var c09Priv *dict.Parser
+
+func c09Dict(m c09Msg) *dict.Parser {
+	if !m.Priv {
+		return dict.Default
+	}
+	if c09Priv == nil {
+		p, _ := dict.NewParser()
+		x := `<?xml version="1.0"?><diameter><application id="0" name="Priv">
+<command code="999" short="XP" name="X-Private"><request><rule avp="P-Note" required="false"/></request><answer><rule avp="P-Note" required="false"/></answer></command>
+<command code="280" short="WD" name="Watch-Dog"><request><rule avp="P-Note" required="false"/></request><answer><rule avp="P-Note" required="false"/></answer></command>
+<avp name="P-Note" code="9901" must="M"><data type="UTF8String"/></avp></application></diameter>`
+		if err := p.Load(strings.NewReader(x)); err != nil {
+			panic(err)
+		}
+		c09Priv = p
+	}
+	return c09Priv
 }
 
 // the eight registration keys relative to a message key K
@@ -116,9 +141,9 @@ func c09Eval(cs C09Case) string {
 		if cs.Req {
 			flags = 0x80
 		}
-		msg := diam.NewMessage(m.Code, flags, m.App, 1, 2, dict.Default)
-		if _, err := dict.Default.FindCommand(m.App, m.Code); err != nil {
-			return "harness: command not defined: " + err.Error()
+		msg := diam.NewMessage(m.Code, flags, m.App, 1, 2, c09Dict(m))
+		if _, err := c09Dict(m).FindCommand(m.App, m.Code); err != nil {
+			return "the message's own dictionary defines this command (directly or through its base application) but FindCommand does not resolve it: " + err.Error()
 		}
 		mux.ServeDIAM(nil, msg)
 		reports := 0
@@ -206,7 +231,7 @@ func c09HistEval(h C09Hist) string {
 				continue
 			}
 			fired = nil
-			mux.ServeDIAM(nil, diam.NewMessage(m.Code, flags, m.App, 1, 2, dict.Default))
+			mux.ServeDIAM(nil, diam.NewMessage(m.Code, flags, m.App, 1, 2, c09Dict(m)))
 			reports := 0
 			for {
 				select {
@@ -307,7 +332,7 @@ func runC09(ctx *ev.Ctx) {
 	}
 	ctx.Set("histories", hn)
 	ctx.Set("distinct_selected_handlers", len(outcomes)+1)
-	ctx.Rule = "histories: every sequence of <=5 (thorough 6) operations over {register one of the eight keys with a fresh handler, dispatch} ending in a dispatch, replayed on one ServeMux with every dispatch compared with a reference model (map key -> latest handler; index, then name, then catch-all); AND the complete decision table: for 4 commands (base CE, application CC, RA under Gx which redefines it, RA under S6a which resolves through the base dictionary) x request/answer: all 2^8 subsets of the registrations {index K, index with other application, other code, other R bit, name of K, name with the other suffix, name of another command, ALL}, and every single re-registration of a present key with a second handler; the handler that fires and the number of error reports are compared with the reference decision (index, then name, then catch-all, else exactly one report)."
+	ctx.Rule = "histories: every sequence of <=5 (thorough 6) operations over {register one of the eight keys with a fresh handler, dispatch} ending in a dispatch, replayed on one ServeMux with every dispatch compared with a reference model (map key -> latest handler; index, then name, then catch-all); AND the complete decision table: for 7 message keys (base CE, application CC, RA under Gx which redefines it, RA under S6a which resolves through the base dictionary, and three messages carrying a private dictionary whose base application defines a command the default dictionary lacks and names code 280 differently) x request/answer: all 2^8 subsets of the registrations {index K, index with other application, other code, other R bit, name of K, name with the other suffix, name of another command, ALL}, and every single re-registration of a present key with a second handler; the handler that fires and the number of error reports are compared with the reference decision (index, then name, then catch-all, else exactly one report)."
 	ctx.Assume = []string{"restricted to commands the dictionary defines (incoming messages have passed ReadMessage)"}
 }
 
